@@ -20,7 +20,9 @@ RULE = ('An original bundle (payload 0..4000 octets, extension blocks with and w
         '== original, extension blocks == those of the offset-0 fragment; nothing afterwards; the two interleaved bundles '
         'never mix.  (secured) a real source with a BIB or BCB policy over the payload and a route MTU emits fragments; a real '
         'destination holding the key receives them in several orders: nothing early, exactly one delivery, payload == the '
-        'original plaintext (all primary / payload CRC types).  Non-trivial = >= 3 fragments arriving in an order different from offset order; distinct by SHA-1.')
+        'original plaintext (all primary / payload CRC types).  (stack) three whole nodes, every hop with a CL and a route MTU of '
+        'its own, optionally over impaired datagram networks (every UDP datagram / Ethernet frame twice, the whole batch twice, reversed, '
+        'reversed and again in order, rotated): the destination delivers each bundle at most once, with the original payload and flags.  Non-trivial = >= 3 fragments arriving in an order different from offset order; distinct by SHA-1.')
 SHRINK_KEYS = ('arrival',)
 SHRINK_KINDS = ('list',)
 ASSUMPTIONS = [
@@ -101,6 +103,8 @@ def stack_cases():
         'flags': st.sampled_from([0, 0, 0x40, 0x20, 0x080000]),
         'pcrc': st.sampled_from([1, 2]), 'ycrc': st.sampled_from([0, 1, 2]),
         'back': st.booleans(),
+        # impaired datagram networks (vlib/stack_world.py _release): fragments and CL segments arrive twice and / or out of order
+        'netfault': st.sampled_from([None, None, 'dup', 'dup-late', 'reverse', 'reverse-dup', 'rotate']),
     })
 
 
@@ -145,6 +149,11 @@ def enumerate_cases(tier):
 def pinned_cases():
     yield 'stack-refragmented', {'kind': 'stack', 'hops': ['tcpcl', 'udpcl'], 'rmtu': [200, 120], 'umtu': 100, 'sizes': [500, 8, 300],
                                  'flags': 0x080000, 'pcrc': 1, 'ycrc': 2, 'back': True}
+    for fault in ('dup', 'reverse', 'reverse-dup', 'rotate'):
+        for hops in (['udpcl', 'btpu'], ['btpu', 'udpcl']):
+            yield 'stack-netfault-%s-%s' % (fault, hops[0]), {
+                'kind': 'stack', 'hops': hops, 'rmtu': [200, 150], 'umtu': 100, 'emtu': 100, 'sizes': [500, 300], 'flags': 0, 'pcrc': 1,
+                'ycrc': 2, 'back': True, 'netfault': fault}
     yield 'same-offset-different-length', {'total': 20, 'ranges': [[0, 5], [0, 10], [10, 20]],
                                           'other': {'variant': 'seq', 'total': 7, 'ranges': []},
                                           'arrival': [[0, 0], [0, 1], [0, 2]], 'pcrc': 1, 'ycrc': 2, 'ext': [True], 'source': 'ref', 'seed': 1}
@@ -318,7 +327,7 @@ def execute_stack(case):
         dict(routes=[('^dtn://n1/', 1, hop12, m12), ('^dtn://n3/', 3, hop23, m23)],
              rx_routes=[('^dtn://n2/', 'deliver'), ('^dtn://n[13]/', 'forward')]),
         dict(routes=[('^dtn://n[12]/', 2, hop23, m23)], rx_routes=[('^dtn://n3/', 'deliver')]),
-    ], udpcl_mtu=case.get('umtu'), btpu_mtu=case.get('emtu'))
+    ], udpcl_mtu=case.get('umtu'), btpu_mtu=case.get('emtu'), netfault=case.get('netfault'))
     try:
         sent = []
         for seq, size in enumerate(case['sizes'], 1):
@@ -372,6 +381,12 @@ def execute_stack(case):
         if len(frag_hops) >= 1:
             out.label('fragmented-on-the-way')
         out.label('stack', 'stack-hops:%s+%s' % (hop12, hop23))
+        if case.get('netfault'):
+            out.label('stack-netfault:%s' % case['netfault'])
+            if world.net_duplicated:
+                out.label('stack:datagrams-duplicated')
+            if world.net_reordered:
+                out.label('stack:datagrams-reordered')
         out.nontrivial = bool(frag_hops) and any(x for x in sent if x[4] is None)
         for esc in world.escapes():
             out.count('stack-escape:%s@%s' % (esc.exc_type, esc.frame))
